@@ -157,7 +157,9 @@ def describe(name, cls):
     elif pk == "sdrz":
         s.points = lin(0.1, 2.9); s.t = 2.0; s.min_n = 2
     elif pk == "sedov":
-        s.points = lin(0.1, 1.2); s.t = 1.0; s.cost = "slow"
+        # the docstring says density / energy at small radius are interpolated and "should not be
+        # trusted": requests stay outside that documented region
+        s.points = lin(0.55, 1.2); s.t = 1.0; s.cost = "slow"
     elif pk == "suolson":
         s.points = lin(0.1, 5.0); s.t = 1.0e-9
     return s
@@ -171,3 +173,42 @@ def registry():
     if _CACHE is None:
         _CACHE = {n: describe(n, c) for n, c in sorted(all_classes().items())}
     return _CACHE
+
+
+# ---------------------------------------------------------------------------
+# C06: classes taking part in history / interleaving exploration, the kind of
+# state they keep (see spec/Interp.tla), the module whose globals they write,
+# and a second, valid, non-default parameter set.
+def _ic(density):
+    return {"density": density, "velocity": -1, "pressure": 0, "symmetry": 2}
+
+
+STATEFUL = {
+    # name: (kind, module, alt kwargs, cost)
+    "noh.noh1.Noh": ("pure", "noh1", {"gamma": 1.4, "u0": -2.0, "geometry": 2}),
+    "cog.cog8.Cog8": ("pure", "cog8", {"geometry": 2, "rho0": 2.5}),
+    "kenamond.kenamond2.Kenamond2": ("pure", "kenamond2", {"R": 2.5, "D1": 2.5}),
+    "blake.blake.Blake": ("pure", "blake", {"pressure_scale": 2.0e6, "cavity_radius": 0.08}),
+    "rmtv.rmtv.Rmtv": ("glob", "rmtv.timmes", {"rf": 0.7}),
+    "suolson.suolson.SuOlson": ("glob", "suolson.timmes", {"opac": 2.0, "trad_bc_ev": 500.0}),
+    "riemann.ep_riemann.IGEOS_Solver": ("attr", "riemann", {"ul": 0.5, "gr": 5.0 / 3.0, "pr": 0.2}),
+    "riemann2D_2section_steadystate.ep_riemann2D_2section_steadystate.IGEOS_Solver":
+        ("attr", "riemann2D", {"top_state": [0.25, 0.5, 6.0, 0.0, 1.4]}),
+    "sedov.sedov.Sedov": ("attr", "sedov", {"geometry": 2, "omega": 0.5, "gamma": 5.0 / 3.0}),
+    "mader.timmes.Mader": ("attr", "mader", {"u_piston": 1.0e4}),
+    "sdrz.sdrz.SteadyDetonationReactionZone": ("attr", "sdrz", {"D": 1.0, "rho_0": 2.0}),
+    "radshocks.nED_radshocks.nED_Solver": ("eager", "radshocks", {"M0": 1.4}),
+    "radshocks.nED_radshocks.ie_Solver": ("eager", "radshocks", {}),
+    "nohblackboxeos.blackboxnoh.NohBlackBoxEos": ("bbox", "bbox", {}),
+    "nohblackboxeos.blackboxnoh.PlanarNohBlackBox": ("bbox", "bbox", {}),
+    "nohblackboxeos.blackboxnoh.SphericalNohBlackBox": ("bbox", "bbox", {}),
+    "riemann.ep_riemann.GenEOS_Solver": ("attr", "riemann", {"ul": 0.5, "gr": 5.0 / 3.0, "pr": 0.2, "num_x_pts": 1001, "num_int_pts": 1001}),
+    "radshocks.nED_radshocks.ED_Solver": ("eager", "radshocks", {"M0": 1.4}),
+    "guderley.guderley.Guderley": ("glob", "guderley.ramsey", {"gamma": 3.0}),
+}
+# request-grid dependence that the documentation states (values may move within the
+# documented resolution when the *batch* changes; never when only history changes)
+GRID_DEPENDENT = {"sedov.sedov.Sedov", "mader.timmes.Mader", "sdrz.sdrz.SteadyDetonationReactionZone",
+                  "riemann.ep_riemann.GenEOS_Solver",
+                  "riemann2D_2section_steadystate.ep_riemann2D_2section_steadystate.IGEOS_Solver"}
+BBOX_TOL = {1: 1.0e-10, 2: 1.0e-3}
